@@ -503,6 +503,8 @@ class DocGen:
             return rng.choice([0.0, 0.5, 0.1, 2.0, 1.5])
         if r < 0.75:
             return rng.choice([True, False])
+        if r < 0.80:
+            return None            # a YAML null: a leaf no patch touches, as a value and as a list element alike
         return rng.choice(["a", "b", "name", "스킬", "", "x", "a {{ 1 }}", "{{ 1 }} b", "{ 1 }", "1 + 1"])
 
     def key(self, container_value):
@@ -570,6 +572,9 @@ class Interner:
 
 
 def coq_leaf(v, interner, exprs, as_output=False) -> str:
+    if v is None:
+        # null: for the model a string leaf that is no expression (every patch declines it, it comes back unchanged)
+        return "LStr %d None" % interner.id("\x00null")
     if isinstance(v, bool):
         return "LNum %s" % qlit(int(v))
     if isinstance(v, (int, float)):
